@@ -37,7 +37,26 @@ var ghostKey func(e Entry) []byte
 //@   trusted
 //@   ensures result1 != nil ==> !result0
 
-//@ func MergeEntries
-//@   property C18
+// IsDelete: whether the entry is a delete marker (entries are immutable).
+//@ func Entry.IsDelete
+//@   property C07 C03
 //@   trusted
+//@   pure
 //@   modifies nothing
+
+// ---- merging scans (C07). A scan is a sequence of entries with strictly ascending keys.
+// MergeEntries (mergesort.Merge with keepNewest; assumed, exercised by the pinned merge tests)
+// yields, for every key occurring in some input, exactly one of the input entries with that
+// key, one with the highest sequence number, in ascending key order.
+//@ define scanSorted(q) := forall(0, seqlen(q), func(ii_ int) bool { return forall(0, ii_, func(jj_ int) bool { return string(seqat(q, jj_).Key()) < string(seqat(q, ii_).Key()) }) })
+//@ define inScans(iters, e) := exists(0, len(iters), func(ii_ int) bool { return exists(0, seqlen(iters[ii_]), func(qq_ int) bool { return seqat(iters[ii_], qq_) == e }) })
+//@ define newerIn(res, e) := exists(0, seqlen(res), func(pp_ int) bool { return string(seqat(res, pp_).Key()) == string(e.Key()) && seqat(res, pp_).SeqNum() >= e.SeqNum() })
+//@ func MergeEntries
+//@   property C18 C07 C03
+//@   trusted
+//@   pure
+//@   requires{C07,C03,C10} forall(0, len(iters), func(i int) bool { return scanSorted(iters[i]) })
+//@   modifies nothing
+//@   ensures{C07,C03,C10} scanSorted(result)
+//@   ensures{C07,C03,C10} forall(0, seqlen(result), func(p int) bool { return inScans(iters, seqat(result, p)) })
+//@   ensures{C07,C03,C10} forall(0, len(iters), 0, 1, func(i int) bool { return forall(0, seqlen(iters[i]), func(q int) bool { return newerIn(result, seqat(iters[i], q)) }) })
